@@ -77,22 +77,23 @@ type Exec struct {
 
 // Frame is one (possibly inlined) function activation.
 type Frame struct {
-	x       *Exec
-	fn      *ssa.Function
-	reg     map[ssa.Value]Value
-	cells   map[*ssa.Alloc]*Cell
-	params  map[string]Value
-	spec    *FuncSpec
-	parent  *Frame
-	edgePC  map[[2]int]Term
-	loops   map[int]*loopInfo // header block index -> info
-	rets    []retInfo
-	depth   int
-	info    *types.Info
-	pkg     *types.Package
-	curPos  token.Pos
-	iters   map[*ssa.Range]string // ghost name of visited set
-	iterDom map[*ssa.Range]Term   // key-set array term of the ranged map when the range started
+	x        *Exec
+	fn       *ssa.Function
+	reg      map[ssa.Value]Value
+	cells    map[*ssa.Alloc]*Cell
+	params   map[string]Value
+	freevars map[string]Value // captured variables of a closure under proof: pointers to the variables
+	spec     *FuncSpec
+	parent   *Frame
+	edgePC   map[[2]int]Term
+	loops    map[int]*loopInfo // header block index -> info
+	rets     []retInfo
+	depth    int
+	info     *types.Info
+	pkg      *types.Package
+	curPos   token.Pos
+	iters    map[*ssa.Range]string // ghost name of visited set
+	iterDom  map[*ssa.Range]Term   // key-set array term of the ranged map when the range started
 }
 
 type retInfo struct {
@@ -482,7 +483,7 @@ func (x *Exec) ptrTerm(p PtrV) Term {
 // ---------- function setup ----------
 
 func (x *Exec) newFrame(fn *ssa.Function, parent *Frame) *Frame {
-	fr := &Frame{x: x, fn: fn, reg: map[ssa.Value]Value{}, cells: map[*ssa.Alloc]*Cell{}, params: map[string]Value{},
+	fr := &Frame{x: x, fn: fn, reg: map[ssa.Value]Value{}, cells: map[*ssa.Alloc]*Cell{}, params: map[string]Value{}, freevars: map[string]Value{},
 		parent: parent, edgePC: map[[2]int]Term{}, loops: map[int]*loopInfo{}, iters: map[*ssa.Range]string{}, iterDom: map[*ssa.Range]Term{}}
 	if parent != nil {
 		fr.depth = parent.depth + 1
